@@ -264,6 +264,9 @@ fn boundary_leg(g: &Grammar) -> Acc {
         }
     }
     for s in &strings {
+        // misplaced literal (an operator is missing): the error path quotes the token
+        texts.push(format!("x {s}"));
+        texts.push(format!("{s} {s}"));
         texts.push(s.clone());
         texts.push(format!("[{s}, {s}]"));
         texts.push(format!("@k: {s};\nx"));
@@ -271,6 +274,21 @@ fn boundary_leg(g: &Grammar) -> Acc {
     }
     for t in ["\"", "\"abc", "\"abc\\", "\"abc\\\"", "\"\\u{41\"", "\"\n", "i", "f", "d", "0x", "0o", "0b", "@", "@k", "@k:", "@k: i1", "//", "// c", "/", "/ /", "\u{feff}x", "x\u{0}", "\u{85}x\u{2028}"] {
         texts.push(t.to_string());
+    }
+    // rule texts with several non-ASCII comment lines of different byte lengths in front of a
+    // syntax error, LF and CRLF (error positions are computed from byte offsets and lines)
+    let comment_lines = ["// contrôle de majorité", "// vérifie l'âge déclaré", "// auteur: René", "// 日本語のコメント", "// ascii only", "//é", "// 😀😀"];
+    let bad_lines = ["age => i18", "x y", "i1 +", ") x", "@k: ;", "x == \"é\" \"日本\"", "f(x", "\"unterminated é"];
+    for mask in 1u32..(1 << comment_lines.len()) {
+        let chosen: Vec<&str> = comment_lines.iter().enumerate().filter(|(i, _)| mask >> i & 1 == 1).map(|(_, l)| *l).collect();
+        if chosen.len() > 5 {
+            continue;
+        }
+        for bad in bad_lines {
+            for eol in ["\n", "\r\n"] {
+                texts.push(format!("{}{eol}{bad}{eol}", chosen.join(eol)));
+            }
+        }
     }
     texts.sort();
     texts.dedup();
